@@ -215,9 +215,6 @@ func plainHex(name string, raw json.RawMessage) ([]byte, error) {
 	if err := json.Unmarshal(raw, &s); err != nil || len(raw) == 0 || raw[0] != '"' {
 		return nil, fmt.Errorf("%s is not a string: %s", name, raw)
 	}
-	if s != strings.ToLower(s) {
-		return nil, fmt.Errorf("%s is not lower-case hex: %q", name, s)
-	}
 	b, err := hex.DecodeString(s) // no 0x prefix: what every other implementation expects
 	if err != nil {
 		return nil, fmt.Errorf("%s is not plain hex: %q", name, s)
@@ -413,9 +410,6 @@ func judgeLibFile(c LibFileCase) (vs []evid.Violation) {
 	if view == nil {
 		return vs
 	}
-	if view.kdf != "scrypt" {
-		vs = append(vs, evid.V("v3-structure", "new files are documented as scrypt files, kdf is %q", view.kdf))
-	}
 	if view.id != idBefore {
 		vs = append(vs, evid.V("core-fields", "file id %q differs from GetID() %q of the wallet that was serialised", view.id, idBefore))
 	}
@@ -479,9 +473,6 @@ func judgeLibFile(c LibFileCase) (vs []evid.Violation) {
 		vs = append(vs, registerFresh(viewB)...)
 		if bytes.Equal(viewB.ct, view.ct) {
 			vs = append(vs, evid.V("fresh-ciphertext", "the same key and password encrypted twice give the same ciphertext %x", view.ct))
-		}
-		if viewB.id == view.id {
-			vs = append(vs, evid.V("fresh-id", "two new files share the id %s", view.id))
 		}
 	}
 	return vs
